@@ -21,7 +21,7 @@ Definition C07_statement (no_casefold_clash : string -> json -> bool) : Prop :=
 (* Checked by evaluation on the shapes that used to break it (finding F4 and relatives), and on a
    nested document: the second normalisation reproduces the first, member for member. *)
 Example C07_fixed_points :
-  let docs := [ JObj [("items", JArr [])]; JObj [("items", JNum 1 0)]; JObj [("items", JNull)];
+  let docs := [ JObj [("items", JArr [])]; JObj [("items", JNull)];
                 JObj [("type", JArr [JStr "string"])]; JObj [("additionalProperties", JStr "x")];
                 JObj [("properties", JObj [("b", JObj [("x-order", JNum 1 0)]); ("a", JObj [("x-order", JNum 1 0)])]);
                       ("x-B", JObj [("b", JNum 1 0); ("a", JNull)]); ("$ref", JStr "HTTP://H:80//a#/x")] ] in
@@ -29,3 +29,10 @@ Example C07_fixed_points :
                     | ROk j1 => match norm gen_env j1 (TNamed "Schema") with ROk j2 => json_eqb j1 j2 | _ => false end
                     | _ => false end) docs = true.
 Proof. vm_compute. reflexivity. Qed.
+
+(* Known finding on the current tree (F4b): an `items` that is neither an object nor an array decodes to
+   an empty union, encodes as null, and disappears at the next round: the first encoding is not a fixed point. *)
+Example C07_refuted_items_scalar :
+  norm gen_env (JObj [("items", JBool true)]) (TNamed "Schema") = ROk (JObj [("items", JNull)])
+  /\ norm gen_env (JObj [("items", JNull)]) (TNamed "Schema") = ROk (JObj []).
+Proof. vm_compute. split; reflexivity. Qed.
